@@ -59,4 +59,12 @@ def isoCheck (h h' : Heap) (v v' : Val) : Bool :=
   let R := buildSim fuel h h' [(v, v')] []
   relB R v v' && simCheck h h' R || (match v, v' with | .atom s, .atom s' => s == s' | _, _ => false)
 
+/-- every `Identifier` object has exactly the attributes its `__deepcopy__` carries over, in the order
+`Identifier.__init__` creates them (`alias, parentheses, parts` and optionally `sub_select`): the
+hypothesis under which the custom hook produces a *structural* copy (nothing dropped) -/
+def identShapeB (h : Heap) : Bool :=
+  h.all (fun c => c.kind != "Identifier" ||
+    (c.slots.map (·.1) == ["alias", "parentheses", "parts"] ||
+     c.slots.map (·.1) == ["alias", "parentheses", "parts", "sub_select"]))
+
 end MindsVerif.Heap
